@@ -39,11 +39,13 @@ def qbytes_int_mm(activations: torch.Tensor, weights: torch.Tensor, output_scale
     out_features = weights.shape[0]
     # torch._int_mm works on transposed weights, i.e (in_features, out_features)
     weights = weights.t()
+    # torch._int_mm misreads activations that are not laid out row by row (transposed or expanded views)
+    activations = activations.contiguous()
     if activations.ndim == 2:
         out_data = torch._int_mm(activations, weights)
     else:
         output_shape = activations.shape[:-1] + (out_features,)
-        out_data = torch._int_mm(activations.view(-1, in_features), weights)
+        out_data = torch._int_mm(activations.reshape(-1, in_features), weights)
         out_data = out_data.view(output_shape)
     # We must evaluate the output as float32 because the multiplication
     # of the int32 data by the scales might overflow
@@ -58,13 +60,15 @@ def qbytes_int8pack_mm(activations: torch.Tensor, weights: torch.Tensor, output_
     if output_scales.numel() == 1:
         # Per-tensor weights: the kernel still expects one scale per output feature
         output_scales = output_scales.expand(weights.shape[0]).contiguous()
+    # torch._weight_int8pack_mm requires activations that are contiguous on the last dimension
+    activations = activations.contiguous()
     if activations.ndim == 2:
         return torch._weight_int8pack_mm(activations, weights, output_scales)
     else:
         in_features = activations.shape[-1]
         out_features = weights.shape[0]
         output_shape = activations.shape[:-1] + (out_features,)
-        out_data = torch._weight_int8pack_mm(activations.view(-1, in_features), weights, output_scales)
+        out_data = torch._weight_int8pack_mm(activations.reshape(-1, in_features), weights, output_scales)
         return out_data.view(output_shape)
 
 
